@@ -56,7 +56,7 @@ impl Monitor for C10 {
     }
     fn plan(&self, tier: Tier) -> Vec<String> {
         let mut v: Vec<String> = (0..8).map(|i| format!("cat:{i}")).collect();
-        for i in 0..tier.pick(120, 4000) {
+        for i in 0..tier.pick(200, 4000) {
             v.push(format!("rnd:{i}"));
         }
         v
